@@ -18,6 +18,7 @@ from __future__ import annotations
 
 import asyncio
 import itertools
+import os
 import socket as real_socket
 import types
 
@@ -103,7 +104,7 @@ def make_socket_module(world):
 
         def __init__(self, family=-1, type=-1, proto=-1, fileno=None):
             vid = world.next_id
-            _fam, create_ok, _ck = world.addrs[vid]
+            _fam, create_ok, _ck = world.addrs[vid][:3]
             if not create_ok:
                 raise OSError(24, "Too many open files")
             super().__init__(family, type, proto, fileno)
@@ -124,6 +125,18 @@ def make_socket_module(world):
     return shim
 
 
+import errno as _errno
+ERRNOS = [_errno.ECONNREFUSED, _errno.ETIMEDOUT, _errno.EHOSTUNREACH, _errno.ENETUNREACH, _errno.EAFNOSUPPORT]
+
+
+def connect_error(world, vid):
+    """The OSError of a failed connect to address vid: the errno is part of the address's script (4th field) -- some map to
+    OSError subclasses (ETIMEDOUT -> TimeoutError, ECONNREFUSED -> ConnectionRefusedError)."""
+    a = world.addrs[vid]
+    e = ERRNOS[a[3] % len(ERRNOS)] if len(a) > 3 else _errno.ECONNREFUSED
+    return OSError(e, os.strerror(e))
+
+
 def make_resolver(world):
     from easynetwork.lowlevel.api_async.backend._common.dns_resolver import BaseAsyncDNSResolver
 
@@ -137,7 +150,7 @@ def make_resolver(world):
             if ck == 1:
                 return
             if ck == 2:
-                raise OSError(111, "Connection refused")
+                raise connect_error(world, vid)
             if ck == 3:
                 raise RuntimeError("scripted crash")
             fut = asyncio.get_running_loop().create_future()
@@ -146,6 +159,9 @@ def make_resolver(world):
                 await fut
             finally:
                 world.pending.pop(vid, None)
+
+        async def ensure_resolved(self, backend, host, port, family, type, proto=0, flags=0):
+            return list(world.local_infos if host == "local" else world.remote_infos)
 
         # _create_connection_impl receives the addrinfo; make the id available to the socket factory
         async def _create_connection_impl(self, *, remote_addrinfo, local_addrinfo):
@@ -212,12 +228,15 @@ def run_race(inp, cancel_after_iteration=None):
             backend = AsyncIOBackend()
             remote = [addrinfo(i, a[0]) for i, a in enumerate(addrs)]
             local = None if locals_ is None else [(l[0], real_socket.SOCK_STREAM, 0, "", ("local", j)) for j, l in enumerate(locals_)]
+            # the real entry points (name resolution is scripted): create_stream_connection -> staggered race,
+            # create_datagram_connection -> sequential _create_connection_impl
+            world.remote_infos, world.local_infos = remote, local
+            la = None if local is None else ("local", 0)
             if kind == 1:
-                coro = resolver._staggered_race_connection_impl(
-                    backend, remote_addrinfo=remote, local_addrinfo=local,
-                    happy_eyeballs_delay=(1.0 if has_delay else float("inf")))
+                coro = resolver.create_stream_connection(backend, "remote", 1, local_address=la,
+                                                         happy_eyeballs_delay=(1.0 if has_delay else float("inf")))
             else:
-                coro = resolver._create_connection_impl(remote_addrinfo=remote, local_addrinfo=local)
+                coro = resolver.create_datagram_connection(backend, "remote", 1, local_address=la)
             task = sp.loop.create_task(coro)
             if cancel_after_iteration is not None:
                 return _sweep(sp, world, task, batches, cancel_after_iteration)
@@ -253,7 +272,7 @@ def _apply(sp, world, task, code, arg, pos):
         if code == 0:
             fut.set_result(None)
         elif code == 1:
-            fut.set_exception(OSError(111, "Connection refused"))
+            fut.set_exception(connect_error(world, arg))
         else:
             fut.set_exception(RuntimeError("scripted crash"))
         return True
@@ -544,6 +563,9 @@ def oracle(inp):
             msg = _check_final(result, open_ids)
             if msg:
                 return msg
+            if result[0] == 1 and result[1] < len(addrs):
+                return (f"race: failure reported with {result[1]} errors for {len(addrs)} addresses: an address was never "
+                        "attempted or was given up although its own attempt had not failed")
             if result[0] == 3 and not scripted_crash:
                 return ("race: raised an exception that is neither the attempts' OSErrors nor a cancellation although no "
                         "attempt raised anything else")
@@ -615,14 +637,15 @@ def shrink(inp):
             yield [2, fams[:i] + fams[i + 1:]]
         return
     kind, has_delay, addrs, locals_opt, batches = inp[:5]
+    tail = list(inp[5:])      # sweep position, kept
     for i in range(len(batches) - 1):
-        yield [kind, has_delay, addrs, locals_opt, batches[:i] + batches[i + 1:]]
+        yield [kind, has_delay, addrs, locals_opt, batches[:i] + batches[i + 1:]] + tail
     for i, b in enumerate(batches):
         if len(b) > 1:
             for j in range(len(b)):
-                yield [kind, has_delay, addrs, locals_opt, batches[:i] + [b[:j] + b[j + 1:]] + batches[i + 1:]]
+                yield [kind, has_delay, addrs, locals_opt, batches[:i] + [b[:j] + b[j + 1:]] + batches[i + 1:]] + tail
     if locals_opt:
-        yield [kind, has_delay, addrs, [], batches]
+        yield [kind, has_delay, addrs, [], batches] + tail
 
 
 # ------------------------------------------------------------------ cases
@@ -805,6 +828,16 @@ def race_cases(thorough, rng):
             addrs = [[A4, 1, 0], [A6, 1, 0]]
             for batches, tags in explore(kind, has_delay, addrs, [ls], rng, 3, 4, crash=False):
                 yield _mk_case(kind, has_delay, addrs, [ls], batches, tags + ["all-suspend", "partial-bind"])
+    # (1c) connect failures of every errno, incl. those mapped to OSError subclasses (ETIMEDOUT -> TimeoutError,
+    #      ECONNREFUSED -> ConnectionRefusedError) and the per-destination ones (EHOSTUNREACH, ENETUNREACH,
+    #      EAFNOSUPPORT), with several addresses of one family: a failure must only ever cost its own attempt
+    for fams in ((A4, A4), (A4, A4, A4), (A6, A4, A4), (A6, A6, A4)):
+        for ek in (1, 2, 3, 4):
+            addrs = [[f, 1, 0, ek if j < len(fams) - 1 else 0] for j, f in enumerate(fams)]
+            for kind, has_delay in ((1, 1), (1, 0), (0, 0)):
+                for batches, tags in explore(kind, has_delay, addrs, [], rng, 2, 2, crash=False):
+                    yield _mk_case(kind, has_delay, addrs, [], batches,
+                                   tags + ["all-suspend", "errno-kinds", f"errno{ek}"])
     # (2) scripted attempts (socket() fails, connect returns/raises at once), local addresses, up to 4 addresses
     nconf = 400 if thorough else 90
     for _ in range(nconf):
@@ -812,7 +845,7 @@ def race_cases(thorough, rng):
         addrs = []
         for _i in range(n):
             cr, ck = rng.choice(SCRIPTS)
-            addrs.append([rng.choice((A4, A6, A6, A4, AU)), cr, ck])
+            addrs.append([rng.choice((A4, A6, A6, A4, AU)), cr, ck, rng.randrange(5)])
         locals_opt = []
         if rng.random() < 0.45:
             ls = []
@@ -854,6 +887,7 @@ def extra(ctx):
                     bad += 1
                     ctx.problems.append(dict(kind="correspondence", detail=f"cancel sweep d={d}: {msg}",
                                              input=__import__("common.sx", fromlist=["sx"]).to_text(inp + [d])))
+                    ctx.extra_suspects = getattr(ctx, "extra_suspects", []) + [inp + [d]]
     # client level: aclose() injected after d loop iterations, for every d of the scripted run
     cruns = cbad = 0
     cscripts = [
@@ -875,5 +909,6 @@ def extra(ctx):
                 cbad += 1
                 ctx.problems.append(dict(kind="correspondence", detail=f"client aclose sweep d={d}: {msg}",
                                          input=_sx.to_text(inp + [d])))
+                ctx.extra_suspects = getattr(ctx, "extra_suspects", []) + [inp + [d]]
     return dict(cancel_sweep_runs=runs, cancel_sweep_failures=bad, client_close_sweep_runs=cruns,
                 client_close_sweep_failures=cbad)
